@@ -366,3 +366,23 @@ def checkout_m_to_another_commit_carrying_a_new_agent_file():
         return _final(s)
     finally:
         s.destroy()
+
+
+def person_overwrites_pending_ai_line_then_checkout_m():
+    """D29 (second pinned history; the first, reset --soft after a token replacement, was repaired together with D50): an AI session
+    inserts two lines at the top of f.txt (uncommitted); the person overwrites the first of them with an own line, no checkpoint;
+    `git checkout -m <other commit>` carries the work over; commit => line 1, written by the person, is reported AI (the switch
+    snapshots pending attribution by line number without first recording the person's edit)."""
+    s = _mk("d29b", files=1)
+    try:
+        f0 = [s.line("human") for _ in range(4)]
+        s.human_write("f.txt", f0); s.commit_all("init")
+        s.human_write("g.txt", [s.line("human")]); s.commit_all("second")
+        a1, a2 = s.line("S1"), s.line("S1")
+        s.ai_write("S1", "f.txt", [a1, a2] + f0)
+        s.human_write("f.txt", [s.line("human"), a2] + f0)        # unreported overwrite of the agent's first line
+        s.g("branch", "sw1", "HEAD~1")
+        s.g("checkout", "-q", "-m", "sw1")
+        return _final(s)
+    finally:
+        s.destroy()
